@@ -32,10 +32,17 @@
 //	                                    tree because a multi-root v1beta1 module became several
 //	                                    modules (the comparison then goes on against a migrated
 //	                                    copy of the previous tree)
-//	migrate-lint-changed[-disabled-module|-no-buf-yaml-module]
+//	migrate-lint-changed[-disabled-module|-no-buf-yaml-module|-roots-split|-field-no-descriptor]
 //	migrate-breaking-changed[-disabled-module|-no-buf-yaml-module]
 //	                                    the annotations of a module differ; the suffix says that
 //	                                    the module had `ignore: [.]` / had no buf.yaml
+//
+// The suffixes -roots-split (a multi-root v1beta1 module whose lost / new lint annotations are
+// all of rules that compare the files of one image with each other) and -field-no-descriptor
+// (lost annotations of the v1beta1-only rule FIELD_NO_DESCRIPTOR) name what v2 cannot express.
+//
+// The first len(migStrata) cases of every run are a stratified family of check sections (ids
+// that v2 does not know in each of use / except / ignore_only, switched-off sections).
 //
 // The generator stays inside what buf accepts BEFORE the migration; see the comments on
 // migLintUseCommon (mixed v1/v1beta1 workspaces) and on deps in genMigCase.
@@ -199,7 +206,10 @@ type migFile struct {
 	svcSuffix     string
 	rpcSame       bool
 	rpcEmpty      bool
-	mut           int // breaking mutation, see migMut*
+	// descriptorField: a field named "descriptor" (v1beta1 lint rule FIELD_NO_DESCRIPTOR, which
+	// has no counterpart in v1 / v2).
+	descriptorField bool
+	mut             int // breaking mutation, see migMut*
 }
 
 const (
@@ -280,6 +290,9 @@ func (f *migFile) text(prev bool) string {
 	if f.mut == migMutFieldRemoved && prev {
 		b.WriteString("  string legacy = 12;\n")
 	}
+	if f.descriptorField {
+		b.WriteString("  string descriptor = 13;\n")
+	}
 	b.WriteString("}\n")
 	if f.mut == migMutMessageRemoved && prev {
 		b.WriteString("\nmessage Legacy" + l + " {\n  string id = 1;\n}\n")
@@ -337,6 +350,8 @@ type migModule struct {
 	// generator choices, for the distribution counters
 	usesDeprecatedIDs         bool
 	usesV1Beta1OnlyCategories bool
+	// stratum >= 0: the lint / breaking sections are one of migStrata instead of random ones.
+	stratum int
 }
 
 func (m *migModule) multiRoot() bool { return len(m.units) > 1 }
@@ -377,6 +392,7 @@ var (
 	migLintUseV1Beta1Only = [][]string{
 		{"FILE_LAYOUT", "SENSIBLE"}, {"STYLE_DEFAULT"}, {"STYLE_BASIC", "PACKAGE_AFFINITY"},
 		{"OTHER", "MINIMAL"}, {"DEFAULT", "OTHER"}, {"STYLE_STANDARD", "FILE_LAYOUT"},
+		{"FIELD_NO_DESCRIPTOR", "ENUM_PASCAL_CASE", "SERVICE_SUFFIX"}, {"FIELD_NO_DESCRIPTOR"},
 	}
 	// Lists of rule IDs only.  Every v1beta1 category but the STYLE_* ones and OTHER holds
 	// FIELD_NO_DESCRIPTOR; these lists do not.
@@ -389,7 +405,7 @@ var (
 	// Rule IDs that are deprecated in v1beta1 and v1.
 	migDeprecatedIDs = []string{
 		"IMPORT_NO_WEAK", "FIELD_SAME_LABEL", "FILE_SAME_PHP_GENERIC_SERVICES",
-		"FILE_SAME_JAVA_STRING_CHECK_UTF8", "MESSAGE_SAME_MESSAGE_SET_WIRE_FORMAT",
+		"FILE_SAME_JAVA_STRING_CHECK_UTF8", "MESSAGE_SAME_MESSAGE_SET_WIRE_FORMAT", "FIELD_SAME_CTYPE",
 	}
 	// IMPORT_NO_WEAK is deprecated in v1beta1 and v1.
 	migLintExcept = []string{
@@ -399,25 +415,27 @@ var (
 		"DIRECTORY_SAME_PACKAGE", "ENUM_FIRST_VALUE_ZERO", "RPC_REQUEST_RESPONSE_UNIQUE",
 	}
 	migLintExceptV1Only      = []string{"IMPORT_USED", "SYNTAX_SPECIFIED"}
-	migLintExceptV1Beta1Only = []string{"FILE_LAYOUT", "STYLE_DEFAULT", "PACKAGE_AFFINITY", "SENSIBLE", "OTHER"}
+	migLintExceptV1Beta1Only = []string{"FILE_LAYOUT", "STYLE_DEFAULT", "PACKAGE_AFFINITY", "SENSIBLE", "OTHER", "FIELD_NO_DESCRIPTOR"}
 	// DEFAULT is a deprecated category.
 	migLintIgnoreOnly = []string{
 		"FIELD_LOWER_SNAKE_CASE", "ENUM_ZERO_VALUE_SUFFIX", "PACKAGE_DIRECTORY_MATCH", "SERVICE_SUFFIX",
 		"PACKAGE_VERSION_SUFFIX", "BASIC", "DEFAULT", "MINIMAL", "IMPORT_NO_WEAK", "RPC_REQUEST_RESPONSE_UNIQUE",
 	}
-	migLintIgnoreOnlyV1Beta1Only = []string{"FILE_LAYOUT", "STYLE_DEFAULT", "SENSIBLE"}
+	migLintIgnoreOnlyV1Beta1Only = []string{"FILE_LAYOUT", "STYLE_DEFAULT", "SENSIBLE", "FIELD_NO_DESCRIPTOR"}
 
 	migBreakingUse = [][]string{
 		{"FILE"}, {"FILE"}, {"PACKAGE"}, {"WIRE_JSON"}, {"WIRE"},
 		{"WIRE", "FILE_NO_DELETE"},
 		{"FIELD_NO_DELETE", "FIELD_SAME_TYPE", "ENUM_VALUE_NO_DELETE", "MESSAGE_NO_DELETE", "FILE_NO_DELETE"},
 		{"FIELD_SAME_LABEL", "FIELD_NO_DELETE", "FILE_SAME_PACKAGE"},
+		{"FIELD_SAME_CTYPE", "FILE_SAME_PHP_GENERIC_SERVICES"},
 	}
-	// FIELD_SAME_LABEL, FILE_SAME_PHP_GENERIC_SERVICES, FILE_SAME_JAVA_STRING_CHECK_UTF8 and
-	// MESSAGE_SAME_MESSAGE_SET_WIRE_FORMAT are deprecated in v1beta1 and v1.
+	// FIELD_SAME_LABEL, FIELD_SAME_CTYPE, FILE_SAME_PHP_GENERIC_SERVICES,
+	// FILE_SAME_JAVA_STRING_CHECK_UTF8 and MESSAGE_SAME_MESSAGE_SET_WIRE_FORMAT are deprecated in
+	// v1beta1 and v1.
 	migBreakingExcept = []string{
 		"FIELD_SAME_LABEL", "FILE_SAME_PHP_GENERIC_SERVICES", "FILE_SAME_JAVA_STRING_CHECK_UTF8",
-		"MESSAGE_SAME_MESSAGE_SET_WIRE_FORMAT", "FIELD_NO_DELETE", "ENUM_VALUE_NO_DELETE",
+		"MESSAGE_SAME_MESSAGE_SET_WIRE_FORMAT", "FIELD_SAME_CTYPE", "FIELD_NO_DELETE", "ENUM_VALUE_NO_DELETE",
 		"FILE_SAME_PACKAGE", "FIELD_SAME_TYPE", "MESSAGE_NO_DELETE", "FILE_NO_DELETE", "FIELD_SAME_CARDINALITY",
 		"RPC_NO_DELETE", "ENUM_NO_DELETE", "FIELD_SAME_NAME", "FIELD_SAME_JSON_NAME", "ONEOF_NO_DELETE",
 		"SERVICE_NO_DELETE", "FILE_SAME_GO_PACKAGE", "FIELD_SAME_ONEOF", "FILE_SAME_SYNTAX",
@@ -537,6 +555,33 @@ func migIgnoreCandidates(m *migModule) []string {
 }
 
 // genMigModuleYAML writes the buf.yaml of a module (everything but protos is decided here).
+// migStrata is the stratified family of check sections, one per case at the start of every run,
+// so that each way an id can fail to exist in v2 (a category or a rule that only v1beta1 has, a
+// deprecated rule with and without replacements) meets each of use / except / ignore_only, and
+// both sections are switched off once, whatever the seed.
+type migStratumSection struct {
+	use, except, ignoreOnly []string
+	disabled                bool
+}
+
+var migStrata = []struct {
+	beta, deprecated bool
+	lint, breaking   migStratumSection
+}{
+	{beta: true, lint: migStratumSection{use: []string{"FILE_LAYOUT", "SENSIBLE"}}},
+	{beta: true, lint: migStratumSection{use: []string{"FIELD_NO_DESCRIPTOR", "ENUM_PASCAL_CASE", "SERVICE_SUFFIX"}}},
+	{beta: true, lint: migStratumSection{use: []string{"DEFAULT"}, except: []string{"SENSIBLE", "STYLE_DEFAULT"}}},
+	{beta: true, lint: migStratumSection{use: []string{"DEFAULT"}, except: []string{"FIELD_NO_DESCRIPTOR"}}},
+	{beta: true, lint: migStratumSection{use: []string{"DEFAULT"}, ignoreOnly: []string{"STYLE_DEFAULT", "FILE_LAYOUT"}}},
+	{beta: true, lint: migStratumSection{use: []string{"DEFAULT"}, ignoreOnly: []string{"FIELD_NO_DESCRIPTOR"}}},
+	{deprecated: true, breaking: migStratumSection{use: []string{"FIELD_SAME_CTYPE", "FIELD_SAME_LABEL", "FIELD_NO_DELETE"}}},
+	{deprecated: true, breaking: migStratumSection{use: []string{"FILE"}, except: []string{"FILE_SAME_PHP_GENERIC_SERVICES", "FILE_SAME_JAVA_STRING_CHECK_UTF8"},
+		ignoreOnly: []string{"FIELD_SAME_LABEL"}},
+		lint: migStratumSection{use: []string{"DEFAULT"}, except: []string{"IMPORT_NO_WEAK"}}},
+	{lint: migStratumSection{use: []string{"DEFAULT"}, disabled: true}},
+	{breaking: migStratumSection{use: []string{"FILE"}, disabled: true}},
+}
+
 func genMigModuleYAML(r *hx.Rand, m *migModule) {
 	if m.version == "" {
 		return
@@ -560,11 +605,40 @@ func genMigModuleYAML(r *hx.Rand, m *migModule) {
 	}
 	paths := migIgnoreCandidates(m)
 	beta := m.version == "v1beta1"
-	// Categories of v1beta1 that v2 does not have and deprecated rule IDs are kept to a
-	// fraction of the modules: the migrator rejects both outright ("... is not a known rule or
-	// category ID"), which hides everything else about the case.
-	betaOnly := beta && !m.mixed && r.Chance(1, 5)
-	deprecated := r.Chance(1, 6)
+	if m.stratum >= 0 {
+		st := migStrata[m.stratum]
+		section := func(name string, sec migStratumSection) bool {
+			var body strings.Builder
+			migYAMLList(&body, "  ", "use", sec.use)
+			migYAMLList(&body, "  ", "except", sec.except)
+			if sec.disabled {
+				migYAMLList(&body, "  ", "ignore", []string{"."})
+			}
+			if len(sec.ignoreOnly) > 0 && len(paths) > 0 {
+				io := map[string][]string{}
+				for _, k := range sec.ignoreOnly {
+					io[k] = migPickPaths(r, paths, 1, 2)
+				}
+				migYAMLMap(&body, "  ", "ignore_only", io)
+			}
+			if body.Len() > 0 {
+				b.WriteString(name + ":\n" + body.String())
+			}
+			return sec.disabled
+		}
+		m.lintDisabled = section("lint", st.lint)
+		m.breakingDisabled = section("breaking", st.breaking)
+		m.usesDeprecatedIDs = st.deprecated
+		m.usesV1Beta1OnlyCategories = st.beta
+		m.yaml = b.String()
+		return
+	}
+	// Categories and rules of v1beta1 that v2 does not have, and deprecated rule IDs, on a
+	// fraction of the modules.  (Before the fixes handoff/C16-fix-migrate-deprecated-rule-ids.diff
+	// and C16-fix-migrate-ids-not-in-v2.diff the migrator rejected both outright - "... is not a
+	// known rule or category ID" -, which hid everything else about the case.)
+	betaOnly := beta && !m.mixed && r.Chance(1, 3)
+	deprecated := r.Chance(1, 4)
 	m.usesDeprecatedIDs = deprecated
 	m.usesV1Beta1OnlyCategories = betaOnly
 
@@ -589,8 +663,18 @@ func genMigModuleYAML(r *hx.Rand, m *migModule) {
 		exceptPool := append([]string(nil), migLintExcept...)
 		ignoreOnlyPool := append([]string(nil), migLintIgnoreOnly...)
 		if beta && betaOnly {
-			exceptPool = append(exceptPool, migLintExceptV1Beta1Only...)
-			ignoreOnlyPool = append(ignoreOnlyPool, migLintIgnoreOnlyV1Beta1Only...)
+			// Half of the time nothing but ids that v2 does not know, so that each of use,
+			// except and ignore_only meets them often enough.
+			if r.Chance(1, 2) {
+				exceptPool = append([]string(nil), migLintExceptV1Beta1Only...)
+			} else {
+				exceptPool = append(exceptPool, migLintExceptV1Beta1Only...)
+			}
+			if r.Chance(1, 2) {
+				ignoreOnlyPool = append([]string(nil), migLintIgnoreOnlyV1Beta1Only...)
+			} else {
+				ignoreOnlyPool = append(ignoreOnlyPool, migLintIgnoreOnlyV1Beta1Only...)
+			}
 		} else if !beta {
 			exceptPool = append(exceptPool, migLintExceptV1Only...)
 		}
@@ -699,6 +783,7 @@ func genMigFileFlags(r *hx.Rand, f *migFile) {
 	if f.mut == migMutEnumValueRemoved && !f.hasEnum {
 		f.mut = migMutFieldRemoved
 	}
+	f.descriptorField = r.Chance(1, 12)
 }
 
 func genMigCase(r *hx.Rand, idx int) *migCase {
@@ -733,8 +818,32 @@ func genMigCase(r *hx.Rand, idx int) *migCase {
 			versions[j] = "" // no buf.yaml at all: the v1 defaults apply
 		}
 	}
+	// The first len(migStrata) cases of a run are the stratified family: module 0 gets the
+	// sections of one stratum (see migStrata).  A v1beta1 stratum makes the whole workspace
+	// v1beta1, because ids that only v1beta1 knows must not meet a v1 module (migLintUseCommon).
+	stratum := -1
+	if idx < len(migStrata) {
+		stratum = idx
+		if migStrata[stratum].beta {
+			for j := range versions {
+				versions[j] = "v1beta1"
+			}
+			nBeta = len(dirs)
+		} else if versions[0] == "" {
+			versions[0] = "v1"
+			nBeta = 0
+			for _, v := range versions {
+				if v == "v1beta1" {
+					nBeta++
+				}
+			}
+		}
+	}
 	for j, d := range dirs {
-		m := &migModule{idx: j, dir: d, version: versions[j], mixed: nBeta > 0 && nBeta < len(dirs)}
+		m := &migModule{idx: j, dir: d, version: versions[j], mixed: nBeta > 0 && nBeta < len(dirs), stratum: -1}
+		if j == 0 {
+			m.stratum = stratum
+		}
 		var roots []string
 		if m.version == "v1beta1" && r.Chance(9, 20) {
 			pool := append([]string(nil), migRootPool...)
@@ -1237,6 +1346,23 @@ func (c *migCase) compareAnnotations(
 	reported := false
 	for j := -1; j < len(c.modules); j++ {
 		l, g := migSetDiff(beforeBy[j], afterBy[j])
+		if class == "migrate-lint-changed" && j >= 0 && c.modules[j].version == "v1beta1" {
+			// FIELD_NO_DESCRIPTOR exists in v1beta1 only: its annotations cannot survive.
+			var rest, gone []string
+			for _, a := range l {
+				if migAnnotationRule(a) != "FIELD_NO_DESCRIPTOR" {
+					rest = append(rest, a)
+				} else {
+					gone = append(gone, a)
+				}
+			}
+			if len(gone) > 0 {
+				reported = true
+				fail(class+"-field-no-descriptor", fmt.Sprintf("module %s: %d FIELD_NO_DESCRIPTOR annotations lost (first %s)",
+					c.modules[j].dir, len(gone), migFirst(gone)))
+				l = rest
+			}
+		}
 		if len(l) == 0 && len(g) == 0 {
 			continue
 		}
@@ -1249,6 +1375,10 @@ func (c *migCase) compareAnnotations(
 				cls += "-disabled-module"
 			case m.version == "":
 				cls += "-no-buf-yaml-module"
+			case class == "migrate-lint-changed" && m.multiRoot() && migOnlyCrossFileLintRules(l) && migOnlyCrossFileLintRules(g):
+				// One image per root after the migration: a rule that compares the files of one
+				// module with each other no longer sees the files of the other roots.
+				cls += "-roots-split"
 			}
 		}
 		reported = true
@@ -1259,6 +1389,42 @@ func (c *migCase) compareAnnotations(
 		fail(class, fmt.Sprintf("workspace: %d annotations before, %d after; %d lost (first %s), %d new (first %s)",
 			len(beforeAll), len(afterAll), len(l), migFirst(l), len(g), migFirst(g)))
 	}
+}
+
+// migCrossFileLintRules are the lint rules whose verdict on one file depends on the other files
+// of the same image (all other lint rules look at one file at a time).
+var migCrossFileLintRules = map[string]bool{
+	"DIRECTORY_SAME_PACKAGE":           true,
+	"PACKAGE_SAME_DIRECTORY":           true,
+	"PACKAGE_SAME_CSHARP_NAMESPACE":    true,
+	"PACKAGE_SAME_GO_PACKAGE":          true,
+	"PACKAGE_SAME_JAVA_MULTIPLE_FILES": true,
+	"PACKAGE_SAME_JAVA_PACKAGE":        true,
+	"PACKAGE_SAME_PHP_NAMESPACE":       true,
+	"PACKAGE_SAME_RUBY_PACKAGE":        true,
+	"PACKAGE_SAME_SWIFT_PREFIX":        true,
+	"PACKAGE_NO_IMPORT_CYCLE":          true,
+	"RPC_REQUEST_RESPONSE_UNIQUE":      true,
+}
+
+// migOnlyCrossFileLintRules reports whether every canonical annotation
+// (path|external path|line|col|line|col|RULE|message) is of a cross-file lint rule.
+func migOnlyCrossFileLintRules(anns []string) bool {
+	for _, a := range anns {
+		if !migCrossFileLintRules[migAnnotationRule(a)] {
+			return false
+		}
+	}
+	return true
+}
+
+// migAnnotationRule is the rule id of a canonical annotation.
+func migAnnotationRule(a string) string {
+	fields := strings.SplitN(a, "|", 8)
+	if len(fields) < 7 {
+		return ""
+	}
+	return fields[6]
 }
 
 // migRec records what one case wants to tell hx.Run.  Cases run on several goroutines (the
